@@ -120,9 +120,27 @@ def classify(rec, exp):
         return "bh:panic" if rec.get("panic") else "bh:keep-mask"
     if op == "ts":
         return "ts:theil-sen-median-or-mann-kendall-s-beyond-the-exhaustive-bound"
+    if op == "mkb":
+        return "mkb:mann-kendall-s-or-variance-on-long-tied-series"
     if op == "ord":
         return "ord:%s-p-not-a-decreasing-function-of-the-statistic" % rec.get("kind")
     return str(op)
+
+
+def mkb_hint(blocks):
+    from fractions import Fraction
+    s = 0
+    for j, b in enumerate(blocks):
+        s += b[2] * (b[0] * (b[0] - 1) // 2)
+        for a in blocks[:j]:
+            s += a[0] * b[0] * ((b[1] > a[1]) - (b[1] < a[1]))
+    n = sum(b[0] for b in blocks)
+    groups = {}
+    for b in blocks:
+        if b[2] == 0:
+            groups[b[1]] = groups.get(b[1], 0) + b[0]
+    v = n * (n - 1) * (2 * n + 5) - sum(t * (t - 1) * (2 * t + 5) for t in groups.values())
+    return Fraction(0) if n < 3 or v <= 0 or abs(s) <= 1 else Fraction((abs(s) - 1) ** 2 * 18, v)
 
 
 def ord_records(recs, exp):
@@ -188,17 +206,25 @@ def check(run):
     seqs = [{"op": "seq", "x": r["x"], "pp": r["pp"][:1]} for r in seqs]
     exp = exp_index(rcases)
     mk, pt = ord_records(seqs, exp)
+    # long block-structured series: sorted by the reported p (descending; equal p by a hint of the statistic, which the judge
+    # re-derives and verifies itself)
+    mkb = [json.loads(ln) for ln in xlines if '"op":"mkb"' in ln]
+    xlines = [ln for ln in xlines if '"op":"mkb"' not in ln]
+    mkb.sort(key=lambda r: (-r["p"][0], -r["p"][1], mkb_hint(r["blocks"])))
     nchunks = 10 if thorough else 6
     rej = par_map([
         ("ranks", lambda: judge_chunks(run, wd, rlines, "ranks", nchunks)),
         ("rest", lambda: judge_chunks(run, wd, blines + xlines, "bhrand", 2)),
         ("ord", lambda: judge_chunks(run, wd, dumps(mk + pt), "ord", 2 if not thorough else 4, overlap=1)),
+        ("mkb", lambda: judge_chunks(run, wd, dumps(mkb), "mkb", 1 if not thorough else 3, overlap=1)),
     ])
-    total = len(rlines) + len(blines) + len(xlines) + len(mk) + len(pt)
+    total = len(rlines) + len(blines) + len(xlines) + len(mk) + len(pt) + len(mkb)
+    run.cov["long_block_series"] = {"records": len(mkb), "longer_than_1290_points": sum(1 for r in mkb if r["n"] > 1290),
+                                    "p_strictly_between_floor_and_one": sum(1 for r in mkb if [0, 1000] < r["p"] < [1000000000, 0])}
     run.cov["traces_validated_against_impl"] += total
     run.cov["evaluations"] += total
     per_key = {}
-    for part in ("ranks", "rest", "ord"):
+    for part in ("ranks", "rest", "ord", "mkb"):
         for line, rec in rej[part]:
             key = "stats:" + classify(rec, exp)
             per_key[key] = per_key.get(key, 0) + 1
